@@ -5,6 +5,7 @@ use crate::{Args, Case};
 
 pub mod frame;
 pub mod qpack;
+pub mod session;
 pub mod typestate;
 pub mod varint;
 pub mod wire;
@@ -18,6 +19,7 @@ pub fn generate(suite: &str, rng: &mut Rng, thorough: bool) -> (&'static str, Ve
         "typestate" => ("StreamTSC", typestate::generate(rng, thorough)),
         "wire" => ("WireC", wire::generate(rng, thorough)),
         "qpack" => ("QpackC", qpack::generate(rng, thorough)),
+        "request" => ("SessionC", session::generate(rng, thorough)),
         "settings" => ("WireC", only(wire::generate(rng, thorough), 401, 402)),
         "dgram" => ("WireC", only(wire::generate(rng, thorough), 403, 404)),
         "capsule" => ("WireC", only(wire::generate(rng, thorough), 405, 406)),
@@ -32,6 +34,9 @@ fn only(cs: Vec<Case>, lo: u32, hi: u32) -> Vec<Case> {
 }
 
 pub fn exec(f: u32, args: &Args) -> Args {
+    if (520..530).contains(&f) {
+        return session::exec(f, args);
+    }
     match f / 100 {
         1 => varint::exec(f, args),
         2 => frame::exec(f, args),
@@ -47,6 +52,9 @@ pub fn exec(f: u32, args: &Args) -> Args {
 pub fn oracle(f: u32, args: &Args, out: &Args) -> Option<(&'static str, String)> {
     if out.len() == 1 && out[0] == vec![crate::PANIC] {
         return Some(("C11", format!("panic in function {}", f)));
+    }
+    if (520..530).contains(&f) {
+        return session::oracle(f, args, out);
     }
     match f / 100 {
         1 => varint::oracle(f, args, out),
